@@ -646,6 +646,8 @@ def java(path, relname):
             continue
         m = re.match(r"^\s*(public|protected|private)?\s*(?:static\s+final|final\s+static)\s+(int|double|long|float)\s+(\w+)\s*=\s*([^;]+);\s*$", l)
         if not m:
+            if re.search(r"\b(static\s+final|final\s+static)\s+(int|double|long|float)\b(?!\s*\[)", l) and "(" not in l.split("=")[0]:
+                raise LexError("%s:%d: numeric static final declaration not understood: %s" % (relname, ln, l.strip()[:120]))
             other.append(ln); continue
         n_like += 1
         vis, ty, name, expr = m.group(1) or "package", m.group(2), m.group(3), m.group(4)
